@@ -8,6 +8,8 @@ import itertools
 import numpy as np
 
 from .. import engine
+from .. import histories
+from ..histories import t_callhist        # worker task of the history harness (mc/histories.py)
 from ..engine import Acc
 
 PID = 'C06'
@@ -488,6 +490,8 @@ DISPATCH = {'largemerge': chk_large_merge, 'sameobj': chk_same_object, 'reuse': 
             'extent': chk_extent, 'reduce': chk_reduce}
 
 
+DISPATCH['histop'] = histories.chk_case
+
 # ----------------------------------------------------------------------
 # tasks
 def t_mul(arg, acc):
@@ -590,6 +594,7 @@ def run(tier, seed, acc, procs=None):
     tasks.append(('t_large', {'seed': seed, 'tier': tier}))
     acc.states += 1
     acc.transitions += len(tasks)
+    tasks += histories.tasks_for(PID, seed)        # pairwise call histories over the operations this property is anchored in
     engine.run_parallel(MOD, tasks, acc, procs)
     return {
         'rule': 'all ordered pairs of fields (4 array shapes x every offset in the square, plus the two '
@@ -610,5 +615,8 @@ def run(tier, seed, acc, procs=None):
 
 
 def replay(case, acc):
+    if case.get('kind') == 'histop':
+        import os as _os
+        return histories.chk_case(case, acc, int(_os.environ.get('VERIF_SEED', '0') or 0))
     seed = int(__import__('os').environ.get('VERIF_SEED', '0') or 0)
     DISPATCH[case['kind']](case, acc, seed)
